@@ -399,11 +399,23 @@ def cases_v(terms):
             "Definition lines := Eval vm_compute in map c02_line cases.\nPrint lines.\n")
 
 
+def unpack(chunks):
+    """inverse of Corr02.pack: chunks of up to 7 bytes, each a base-256 number after a leading 1"""
+    out = bytearray()
+    for n in chunks:
+        b = n.to_bytes((n.bit_length() + 7) // 8, "big")
+        assert b[:1] == b"\x01", b[:4]
+        out += b[1:]
+    return bytes(out)
+
+
 def parse_lines(out):
-    m = re.search(r"lines\s*=\s*(.*?)\n\s*:\s*list string", out, re.S)
+    import ast
+    m = re.search(r"lines\s*=\s*(.*?)\n\s*:\s*list", out, re.S)
     if not m:
         raise Broken("coq-output", "cannot find lines in:\n" + out[-2000:])
-    return re.findall(r'"([^"]*)"', m.group(1))
+    body = m.group(1).replace("%N", "").replace(";", ",").replace("true", "True").replace("false", "False")
+    return ast.literal_eval(" ".join(body.split()))
 
 
 def unhex(h):
@@ -459,13 +471,11 @@ def parse_outcome(o):
 
 
 def parse_line(line):
-    outs, codes, texts = line.split("|")
+    head, texts = line
+    outs, codes = unpack(head).decode("ascii").split("|")
     outcomes = [parse_outcome(o) for o in outs.split(";")] if outs else []
     codes = [[tuple(i.split("#", 1)) for i in c.split(",") if i] for c in codes.split("/")]
-    per_seed = []
-    for st in texts.split("/"):
-        items = [t for t in st.split(",") if t != ""]
-        per_seed.append([(t.startswith("!"), unhex(t.lstrip("!"))) for t in items])
+    per_seed = [[(bool(f), unpack(t)) for f, t in st] for st in texts]
     return outcomes, codes, per_seed
 
 
@@ -488,7 +498,7 @@ def go_value(d):
 def go_code(code):
     out = []
     for op in code:
-        name = op.get("name") or "?"
+        name = {"&": "bitand", "|": "bitor"}.get(op.get("name"), op.get("name") or "?")
         if op.get("i") is not None:
             arg = str(int(op["i"]))
         elif op.get("s") is not None:
